@@ -206,8 +206,15 @@ def long_message_fn(ctx, case):
     mlen, limit, m, n = case
     seed = ctx.seed
     _, _, _, seeds = setup(seed)
-    f1 = (env.sym(seed, 'ms.long', 32) * (mlen // 32 + 1))[:mlen]
-    cache = {'sigfield1': f1}
+    why = 'message longer than the default item limit' if mlen >= 0 else 'message over several present sigfields'
+    if mlen < 0:
+        # all eight sigfields present (-mlen = number of fields, taken from the top: 8 -> 1..8, 2 -> 7..8), signatures made outside the library
+        cache = {'sigfield%d' % i: env.sym(seed, 'ms.f8.%d' % i, 3 + i) for i in range(9 + mlen, 9)}
+        f1 = b''.join(cache['sigfield%d' % i] for i in range(9 + mlen, 9))
+        mlen = len(f1)
+    else:
+        f1 = (env.sym(seed, 'ms.long', 32) * (mlen // 32 + 1))[:mlen]
+        cache = {'sigfield1': f1}
     keys = [refed.public_key(seeds[('L', i)]) for i in range(n)]
     keypush = b''.join(push(k) for k in keys)
     cnt = 0
@@ -225,7 +232,7 @@ def long_message_fn(ctx, case):
             ctx.state(('long', mlen, limit, m, n, signers, spoil))
             ctx.outcome('long:%s->%s' % (exp, got))
             if got != exp:
-                ctx.violation({'op': 'CHECK_MULTISIG', 'kind': 'accepts' if got == 'true' else 'rejects', 'why': 'message longer than the default item limit'},
+                ctx.violation({'op': 'CHECK_MULTISIG', 'kind': 'accepts' if got == 'true' else 'rejects', 'why': why},
                               f'message {mlen} bytes, stack_max_item_size {limit}, {m}-of-{n} signers {signers} spoiled {spoil}: expected {exp}, got {got} {r!r}')
     ctx.evaluations += max(cnt - 1, 0)
 
@@ -250,6 +257,21 @@ def builder_fn(ctx, case):
             if got is not (exp == 'true'):
                 ctx.violation({'builder': 'make_multisig_lock', 'kind': 'accepts' if got else 'rejects'},
                               f'n={n} m={m} keyorder={perm} sigs={seq} allowed={allowed}: expected {exp}, got {got}')
+        # the same lock written by hand in the other documented spellings (OP_ prefix, upper / lower case names and value prefixes,
+        # decimal / hex counts) is the same lock
+        kp = ' '.join('push x' + k.hex() for k in keys)
+        for spelling in ('%s check_multisig x%s d%d d%d', '%s OP_CHECK_MULTISIG X%s D%d D%d', '%s CHECK_MULTISIG x%s x%02x x%02x',
+                         '%s op_check_multisig X%s X%02X X%02X'):
+            cnt += 1
+            src = spelling % (kp if spelling[3].islower() else kp.upper().replace('PUSH X', 'PUSH x'), allowed, m, n)
+            try:
+                hand = env.parsing.compile_script(src)
+            except BaseException as e:
+                hand = repr(e)
+            ctx.ran()
+            if hand != lock.bytes:
+                ctx.violation({'builder': 'make_multisig_lock', 'kind': 'hand-written lock differs', 'spelling': spelling.split(' ')[1]},
+                              f'n={n} m={m}: {src[-40:]!r} compiles to {hand if isinstance(hand, str) else hand.hex()[-24:]}, builder {lock.bytes.hex()[-24:]}')
         # witnesses made by the documented builder also unlock
         if m >= 1:
             sf = {'sigfield1': f1, 'sigfield2': f2}
@@ -307,7 +329,7 @@ def blocks(tier, seed):
               'signature orders', nshards=len(fcases)),
         Block('sequences_x_keyorders', cases, case_fn,
               'every ordered token sequence x key order x allowed in {01,00}', nshards=min(len(cases), 256), backstop=7200),
-        Block('long_messages_raised_item_limit', [(ml, lim, m, n) for ml, lim in ((1024, 1024), (1025, 1025), (1025, 4096), (2000, 4096), (3000, 2999), (5000, 8192))
+        Block('long_messages_raised_item_limit', [(ml, lim, m, n) for ml, lim in ((1024, 1024), (1025, 1025), (1025, 4096), (2000, 4096), (3000, 2999), (5000, 8192), (-8, 1024), (-2, 1024), (-3, 1024))
                                                   for m, n in ((1, 1), (1, 2), (2, 2), (2, 3))], long_message_fn,
               'signed message of 1024..5000 bytes x raised stack_max_item_size x quorums up to 2-of-3, every signer order, one outsider signature', nshards=24),
         Block('builder_make_multisig_lock', bcases, builder_fn, 'n<=3 through make_multisig_lock + run_auth_scripts',
